@@ -24,7 +24,12 @@ JudgeLookups(e) ==
 
 JudgeOrdering(e) == e.out.k = "ok" /\ OrderingOK(e.out)
 
+\* full-range positions: the crate's mappings text decoded with exact arithmetic gives the map's tokens
+JudgeEncodeBig(e) == /\ e.out.k = "ok"
+                     /\ LET r == DecodeV(e.out.mappings, e.args.nsrc, e.args.nnm) IN
+                        r.k = "ok" /\ VToksEq(r.toks, e.args.vtoks)
 Judge(e) == CASE e.op = "roundtrip" -> JudgeRoundTrip(e)
+              [] e.op = "encode_big" -> JudgeEncodeBig(e)
               [] e.op = "encode" -> JudgeEncode(e)
               [] e.op = "lookups" -> JudgeLookups(e)
               [] e.op = "ordering" -> JudgeOrdering(e)
